@@ -1475,7 +1475,7 @@ impl Area for Faults {
             world.flt.late_ms.store(
                 // well after the back timer even when sozu's thread runs late (the lag monitor voids
                 // requests that met a scheduling gap of more than 0.4 s)
-                if r.shape == "garbage" { 150 } else { setup.bt as usize * 1000 + 1200 },
+                if r.shape == "garbage" { 150 } else { setup.bt as usize * 1000 + 500 },
                 Ordering::SeqCst,
             );
             world.flt.accept_close.store(
